@@ -291,8 +291,8 @@ def recipes():
                 statistic_params=a['statistic_params'], selection_params=a['selection_params'], fitting_params=a['fitting_params'],
                 plot=plot, plot_dir=scratch() if plot else None, plot_filename='c13beads', full_output=full)
         return b
-    add('mef.get_transform_fxn', ['rfi'], b_gtf(False, False), cheap=False)
-    add('mef.get_transform_fxn(full)', ['rfi'], b_gtf(False, True), cheap=False)
+    add('mef.get_transform_fxn', ['rfi'], b_gtf(False, False), cheap=False, kind='read-fn')
+    add('mef.get_transform_fxn(full)', ['rfi'], b_gtf(False, True), cheap=False, kind='read-fn')
     add('mef.get_transform_fxn(plot)', ['rfi'], b_gtf(True, True), cheap=False, plot=True)
     add('mef.get_transform_fxn(one channel)', ['rfi'], lambda d, k: (
         dict(data=d, mef_values=[0.0, 646.0, 4827.0, 47609.0], clustering_channels=['FL1-H']),
@@ -408,7 +408,7 @@ def cases(tier, seed):
         mine = [r['name'] for r in recipes() if root in r['roots']]
         for i in range(0, len(mine), 12):
             yield dict(kind='singles', root=root, names=mine[i:i + 12])
-        reads = [r['name'] for r in recipes() if root in r['roots'] and r['kind'] == 'read']
+        reads = [r['name'] for r in recipes() if root in r['roots'] and r['kind'] in ('read', 'read-fn')]
         cheap = [n for n in reads if rec_table()[n]['cheap']]
         heavy = [n for n in reads if not rec_table()[n]['cheap']]
         # pairs: every ordered pair of cheap read-only calls
@@ -565,6 +565,27 @@ def run_case(c):
                             res.violation('input-aliases-result:%s' % rname, 'changing the inputs of %s (%s root) afterwards changed its result: %s' % (
                                 rname, kind, diff(s_, n_)), one)
                             ok = False
+            if ok and r['kind'] == 'read-fn':
+                # a returned calibration function must have fixed its curves and channels: changing the caller's
+                # containers afterwards must not change what it computes
+                fn = result if callable(result) else result.transform_fxn
+                probe = make_root('rfi')[:40]
+                snap = rfp(fn(probe, ['FL1-H'])), rfp(fn(probe, None))
+                for key_, v in inputs.items():
+                    if isinstance(v, list):
+                        v.reverse()
+                        for e in v:
+                            if isinstance(e, list):
+                                e[:] = [5.0] * len(e)
+                    elif isinstance(v, dict):
+                        v['tol'] = 1.0
+                try:
+                    now = rfp(fn(probe, ['FL1-H'])), rfp(fn(probe, None))
+                except Exception as e:
+                    now = ('raises', type(e).__name__)
+                if now != snap:
+                    res.violation('input-aliases-result:%s' % rname, 'changing the caller\'s lists / dictionaries after %s changed what the returned function computes' % rname, one)
+                    ok = False
             if ok:
                 res.ok('single:' + r['kind'], True)
         res.sample({'root': kind, 'history': [c['names'][0]]})
